@@ -286,4 +286,7 @@ def run(ctx):
     # the requested regions and the crash context are what the caller configured, in every dump from this writer (same rule instance as C19/config-preserved)
     from rules import c19 as _c19
     _c19.rule_config_preserved(ctx, R="C07/options-kept", only=("app_memory", "crash_context"))
+    # the stream is attempted in every dump: its writer is on every success path of generate_dump (same rule instance as C01/every-stream-attempted)
+    from rules import c01 as _c01
+    _c01.rule_stream_attempted(ctx, R="C07/stream-attempted", only=("memory_list_stream::write", "app_memory::write"))
 
